@@ -35,6 +35,8 @@ REPORTED = {
     "flame-count-truncated": "dump --flame-graph writes the count with snprintf(ptr, len, ...) where len is the length of "
                              "the names, so a count with more digits than the path text has characters is cut "
                              "(`main` + 5 digits -> 4 digits; f called 13 times -> `f 1`)",
+    "chrome-name-overflow": "dump --chrome escapes a function name into name_buf[2048] without a bound: a name whose "
+                            "escaped form needs >= 2048 bytes overruns the stack (SIGSEGV / ASan stack-buffer-overflow)",
     "chrome-comm-escape": "dump --chrome prints task->comm raw in the process_name/thread_name events: a double "
                           "quote or backslash in the executable's file name gives invalid JSON",
 }
@@ -488,7 +490,53 @@ def in_cmdline_defect_class(raw):
     return False
 
 
-def check_escapes(ctx, hexe, pool):
+PROG = "int foo(int x){return x+1;} int main(int argc, char **argv){return foo(argc)-foo(argc);}\n"
+
+
+def e2e_record(ctx, objdir):
+    """real `uftrace record prog <adversarial argv>`: the command line as cmds/info.c stores it, and what
+    dump --chrome makes of the real recording.  -> [(raw /proc/self/cmdline, stored line + separator)]"""
+    root = os.path.join(ctx.scratch, "e2e")
+    os.makedirs(root, exist_ok=True)
+    src = os.path.join(root, "p.c")
+    open(src, "w").write(PROG)
+    exe = os.path.join(root, "p")
+    sh(["gcc", "-pg", "-o", exe, src], check=True)
+    uftexe = os.path.join(objdir, "uftrace")
+    sets = [[b"plain", b'x"y', b"two words"], [b"a\tb"], [b"back\\slash", b'q\\"q'], [b"\xc3\xa9", b"\xff"]]
+    if not ctx.thorough():
+        sets = sets[:2]
+    pairs = []
+    for k, extra in enumerate(sets):
+        d = os.path.join(root, "d%d" % k)
+        argv = [uftexe, "record", "--no-pager", "--no-event", "--libmcount-path=" + objdir, "-d", d, exe] + extra
+        rc, out, err = sh(["timeout", "30"] + argv, timeout=40, text=False)
+        if rc == 124:
+            ctx.violation("uftrace record did not terminate (C15 e2e)", {"kind": "e2e", "argv": [a.hex() for a in extra]}, True)
+            continue
+        try:
+            info = open(os.path.join(d, "info"), "rb").read()
+        except OSError:
+            ctx.broken("e2e recording produced no info file (rc=%d): %r" % (rc, err[-300:]))
+            continue
+        m = re.search(rb"\ncmdline:([^\n]*)\n", info)
+        if not m:
+            ctx.broken("e2e recording has no cmdline line")
+            continue
+        raw = b"\0".join(os.fsencode(a) for a in argv) + b"\0"
+        pairs.append((raw, m.group(1) + b" "))
+        rc2, cout, cerr = uft(objdir, ["dump", "--chrome", "--no-pager", "-d", d])
+        ok, evs, meta, doc = parse_chrome(cout)
+        in_class = in_cmdline_defect_class(raw)
+        ctx.case(key=("e2e", tuple(extra)), tags=["e2e:record", "e2e:cmdline-in-defect-class" if in_class else "e2e:cmdline-plain"])
+        if not ok and not in_class:
+            ctx.violation("dump --chrome of a real recording is not valid JSON", {"kind": "e2e", "argv": [a.hex() for a in extra]}, True)
+        if ok and (not any(e[3] == b"foo" and e[0] for e in evs) or not any(e[3] == b"foo" and not e[0] for e in evs)):
+            ctx.violation("dump --chrome of a real recording lacks the B/E events of foo", {"kind": "e2e", "argv": [a.hex() for a in extra]}, True)
+    return pairs
+
+
+def check_escapes(ctx, hexe, pool, recorded=()):
     strs = gen_strings(ctx, pool)
     esc = harness_batch(hexe, [("E", s) for s in strs])
     # command lines: only inputs outside the known defect class (plus NUL/NL separators), the class itself
@@ -500,12 +548,18 @@ def check_escapes(ctx, hexe, pool):
         "(%s, %s)" % (cb(a), cb(b)) for a, b in zip(strs, esc)))
     defs += ("Definition quo : list (list N * list N) := [\n%s\n].\n" % ";\n".join(
         "(%s, %s)" % (cb(a), cb(b)) for a, b in zip(qin, quo)))
+    defs += ("Definition recd : list (list N * list N) := [\n%s\n].\n" % ";\n".join(
+        "(%s, %s)" % (cb(a), cb(b)) for a, b in recorded))
     res = coq.run_cases(ctx, "escapes", PRE, defs, [
         ("mismatch_esc", "bad_indices agree_escape esc 0"), ("violation_esc", "bad_indices okc_escape esc 0"),
-        ("mismatch_quo", "bad_indices agree_quote quo 0"), ("violation_quo", "bad_indices okc_quote quo 0")])
+        ("mismatch_quo", "bad_indices agree_quote quo 0"), ("violation_quo", "bad_indices okc_quote quo 0"),
+        ("mismatch_rec", "bad_indices agree_quote recd 0")])
     if res is None:
         return
     res = {k: coq.parse_nat_list(v) for k, v in res.items()}
+    for i in res["mismatch_rec"][:1]:
+        ctx.violation("the command line stored by a real `uftrace record` is not what the model of fill_cmdline/json_quote "
+                      "gives", {"kind": "mismatch_rec", "raw": recorded[i][0].hex(), "stored": recorded[i][1].hex()}, False)
     # cross-check of the Coq lexer with python's JSON parser on the implementation's strings
     for s, e in list(zip(strs, esc)) + list(zip(qin, quo)):
         try:
@@ -607,6 +661,14 @@ def witnesses(ctx, objdir, hexe):
     repro["flame-count-truncated"] = out.strip() != b"f 13"
     report_defect(ctx, "flame-count-truncated", repro["flame-count-truncated"],
                   {"kind": "witness", "flame": True, "printed": out.decode("latin-1")})
+    # 5. a function name longer than the escape buffer of dump_chrome_task_rstack
+    long_case = dict(base, syms=[b"main", b"a" * 3000])
+    write_dir(long_case, d)
+    rc, out, err = uft(objdir, ["dump", "--chrome", "--no-pager", "-d", d])
+    ctx.case(key=("wit", "longname"), tags=["witness:long-name"])
+    repro["chrome-name-overflow"] = rc != 0 or not parse_chrome(out)[0]
+    report_defect(ctx, "chrome-name-overflow", repro["chrome-name-overflow"],
+                  {"kind": "witness", "long_name": 3000, "exit_status": rc})
     # sanity: the plain directory is valid JSON
     ok, out = chrome_ok()
     if not ok:
@@ -646,6 +708,8 @@ def common_meta(ctx):
         "symbol names come from the .sym file as they are (no NUL/NL/TAB; names that the demangler would rewrite or "
         "that utils/graph.c treats as fork/exec are not generated)",
         "isprint() as in the C locale (uftrace dump/graph never call setlocale)",
+        "function names whose escaped form is shorter than 2048 bytes (the fixed buffer of dump_chrome_task_rstack; "
+        "longer ones overrun it - reported defect chrome-name-overflow)",
         "the chrome command line / comm defects (see REPORTED) are outside the generated class except for their witnesses",
     ]
 
@@ -733,7 +797,7 @@ def run(ctx):
     common_meta(ctx)
     objdir, hexe = setup(ctx)
     pool = NamePool(ctx.rng)
-    check_escapes(ctx, hexe, pool)
+    check_escapes(ctx, hexe, pool, e2e_record(ctx, objdir))
     repro = witnesses(ctx, objdir, hexe)
     flame_fixed = not repro["flame-count-truncated"]
     ctx.extra["flame_count_printed_in_full"] = flame_fixed
